@@ -312,9 +312,10 @@ def expectedSyncTraces : List (String × List String) := [
   ("BlockDownloader.wasCancelled", ["bd.stateLock.Lock", "bd.stateLock.Unlock", "return"]),
   ("BlockDownloader.HandleBlock", ["send bd.Started", "if{", "send bd.Complete", "return", "}", "if{",
       "send bd.Complete", "return", "}", "send bd.Complete", "return"]),
-  ("BlockDownloader.handleBlock", ["for{", "if{", "return", "}", "if{", "return", "}", "}", "if{", "return", "}",
-      "if{", "return", "}", "if{", "return", "}", "for{", "if{", "return", "}", "}", "if{", "return", "}", "if{",
-      "return", "}", "for{", "if{", "return", "}", "}", "if{", "return", "}", "return"]),
+  ("BlockDownloader.handleBlock", ["range txChannel{", "if{", "range txChannel{", "}", "return", "}", "if{",
+      "range txChannel{", "}", "return", "}", "}", "if{", "return", "}", "if{", "return", "}", "if{", "return",
+      "}", "range blockTxIDs{", "if{", "return", "}", "}", "if{", "return", "}", "if{", "return", "}",
+      "range blockTxIDs{", "if{", "return", "}", "}", "if{", "return", "}", "return"]),
   ("BlockManager.AddRequest", ["m.requestLock.Lock", "if{", "m.requestLock.Unlock", "return", "}",
       "send m.requests", "m.requestLock.Unlock", "return"]),
   ("BlockManager.Stop", ["m.downloaderLock.Lock", "m.downloaderLock.Unlock"]),
@@ -327,8 +328,8 @@ def expectedSyncTraces : List (String × List String) := [
   ("BlockManager.cancelDownloaders", ["m.downloaderLock.Lock", "m.downloaderLock.Unlock"]),
   ("BlockManager.requestBlock", ["if{", "return", "}", "m.downloaderLock.Lock", "m.downloaderLock.Unlock",
       "return"]),
-  ("BlockManager.removeDownloader", ["m.downloaderLock.Lock", "for{", "if{", "m.downloaderLock.Unlock", "return",
-      "}", "}", "m.downloaderLock.Unlock"]),
+  ("BlockManager.removeDownloader", ["m.downloaderLock.Lock", "range m.downloaders{", "if{",
+      "m.downloaderLock.Unlock", "return", "}", "}", "m.downloaderLock.Unlock"]),
   ("BlockManager.markBlockRequestComplete", ["m.currentLock.Lock", "defer m.currentLock.Unlock", "if{", "return",
       "}", "if{", "return", "}", "close m.currentComplete"]),
   ("BitcoinNode.RequestBlock", ["n.Lock", "if{", "n.Unlock", "return", "}", "n.Unlock", "if{", "return", "}",
